@@ -59,11 +59,18 @@ def observe(ds):
     """everything observable through the public getters, as plain python values"""
     vals, labs = ds.get_data()
     rows = [] if vals.size == 0 else [[float(x) for x in r] for r in vals]
-    return {"rows": rows, "labels": [int(x) for x in labs], "dim": int(ds.get_dim()), "flat": vals.ndim == 1,
+    return {"rows": rows, "labels": [float(x) for x in labs], "dim": int(ds.get_dim()), "flat": vals.ndim == 1,
             "shuf": bool(ds.is_shuffled()), "scaled": bool(ds.is_scaled()), "range": obs_range(ds.get_scaling_range()),
             "fac": obs_factor(ds.get_scaling_factor()), "omin": obs_vec(ds.get_original_min()),
             "omax": obs_vec(ds.get_original_max()),
             "off": obs_factor(getattr(ds, "_scaling_offset")) if hasattr(ds, "_scaling_offset") else "absent"}
+
+
+def label_kind(labels):
+    """whole numbers only / some label that is not a whole number / some label strictly between the marker -1 and 0"""
+    if any(-1 < l < 0 for l in labels):
+        return "between-marker-and-zero"
+    return "fractional" if any(l != int(l) for l in labels) else "whole"
 
 
 def attrs_of(o):
@@ -78,16 +85,24 @@ def pairs(o):
     return sorted((tuple(r), l) for r, l in zip(o["rows"], o["labels"]))
 
 
-SAMPLE_RE = re.compile(r"\[([^\[\]]*)\]:(-?\d+)")
+SAMPLE_RE = re.compile(r"\[([^\[\]]*)\]:(-?\d+(?:/\d+)?)")
 STATE_RE = re.compile(r"^S (\[.*\]) dim=(\d+) flat=([01]) shuf=([01]) scaled=([01]) range=(none|P \S+ \S+|A \S+ \S+) "
                       r"fac=(none|S \S+|V \S+) omin=(\S+) omax=(\S+)(?: off=(none|S \S+|V \S+))?$")
+
+
+def rat(txt):
+    """`p/q` or `p` of the model as the nearest float (true division of Python ints is correctly rounded)"""
+    if "/" in txt:
+        a, b = txt.split("/")
+        return int(a) / int(b)
+    return float(int(txt))
 
 
 def pvec(s):
     s = s.strip()
     assert s[0] == "[" and s[-1] == "]", s
     s = s[1:-1]
-    return [Fraction(x) for x in s.split(",")] if s else []
+    return [rat(x) for x in s.split(",")] if s else []
 
 
 def _tagged(txt):
@@ -95,21 +110,21 @@ def _tagged(txt):
     if txt is None:
         return "absent"
     t = txt.split(" ")
-    return None if t[0] == "none" else (("S", Fraction(t[1])) if t[0] == "S" else ("V", pvec(t[1])))
+    return None if t[0] == "none" else (("S", rat(t[1])) if t[0] == "S" else ("V", pvec(t[1])))
 
 
 def parse_state(line):
     m = STATE_RE.match(line)
     if not m:
         return None
-    smp = [(pvec("[" + a + "]"), int(b)) for a, b in SAMPLE_RE.findall(m.group(1))]
+    smp = [(pvec("[" + a + "]"), rat(b)) for a, b in SAMPLE_RE.findall(m.group(1))]
     rng = m.group(6).split(" ")
     fac = m.group(7).split(" ")
     return {"rows": [r for r, _ in smp], "labels": [l for _, l in smp], "dim": int(m.group(2)), "flat": m.group(3) == "1",
             "shuf": m.group(4) == "1", "scaled": m.group(5) == "1",
-            "range": None if rng[0] == "none" else (("P", Fraction(rng[1]), Fraction(rng[2])) if rng[0] == "P"
+            "range": None if rng[0] == "none" else (("P", rat(rng[1]), rat(rng[2])) if rng[0] == "P"
                                                     else ("A", pvec(rng[1]), pvec(rng[2]))),
-            "fac": None if fac[0] == "none" else (("S", Fraction(fac[1])) if fac[0] == "S" else ("V", pvec(fac[1]))),
+            "fac": None if fac[0] == "none" else (("S", rat(fac[1])) if fac[0] == "S" else ("V", pvec(fac[1]))),
             "omin": None if m.group(8) == "none" else pvec(m.group(8)),
             "omax": None if m.group(9) == "none" else pvec(m.group(9)),
             "off": _tagged(m.group(10))}
@@ -160,7 +175,8 @@ def diff_state(impl, model, hmag=0.0):
     fl = max(magnitude(impl["rows"]), 1e-3 * hmag, 1e-300)  # relative to the magnitude of the object's data
     if len(impl["rows"]) != len(model["rows"]) or not all(vec_close(a, b, fl) for a, b in zip(impl["rows"], model["rows"])):
         bad.append("samples")
-    if impl["labels"] != model["labels"] and not (len(impl["rows"]) == 0 and len(model["labels"]) == 0):
+    # labels are dyadic (or the exact value of the float that was passed on to the model): exact comparison
+    if impl["labels"] != [float(x) for x in model["labels"]] and not (len(impl["rows"]) == 0 and len(model["labels"]) == 0):
         bad.append("labels")
     for k in ("dim", "flat", "shuf", "scaled"):
         if impl[k] != model[k]:
@@ -261,22 +277,28 @@ class Hist:
         own = float(np.max(np.abs(vals))) if vals.size else 0.0
         self.hmag.append(own if len(self.hmag) < len(self.raw) else max([own] + self.hmag))
 
-    def new_set(self, rows, labels, cls="ds", route="tuple"):
+    def new_set(self, rows, labels, cls="ds", route="tuple", ldtype="int64"):
         """cls: DataSet or its subclass DataSetRegression; route: (values, labels) tuple or the values-only ndarray"""
         from sparseSpACE.DEMachineLearning import DataSetRegression
-        self.case["init"].append({"rows": [[frac_str(x) for x in r] for r in rows], "labels": list(labels), "cls": cls, "route": route})
+        self.case["init"].append({"rows": [[frac_str(x) for x in r] for r in rows], "labels": [frac_str(x) for x in labels],
+                                  "cls": cls, "route": route, "ldtype": ldtype})
         C = DataSetRegression if cls == "reg" else self.DataSet
         if len(rows) == 0:
             vals, labs = np.array([]), np.array([], dtype=np.int64)
         else:
-            vals, labs = np.array(rows, dtype=float), np.array(labels, dtype=np.int64)
+            # numpy integer / floating label arrays; labels that are not whole numbers need a floating dtype
+            whole = all(float(l) == int(float(l)) for l in labels)
+            dt = {"int64": np.int64, "int32": np.int32, "float64": np.float64, "float32": np.float32}[ldtype]
+            if not whole and dt in (np.int64, np.int32):
+                dt = np.float64
+            vals, labs = np.array(rows, dtype=float), np.array([float(l) for l in labels], dtype=dt)
         if route == "ndarray" and len(rows) and all(l == -1 for l in labels):
             ds = C(vals)
         else:
             ds = C((vals, labs))
         self.raw.append((vals, labs, vals.copy(), labs.copy()))
         self.add_obj(ds)
-        r = self.drv.ask("new %s %s" % (";".join(fvec(x) for x in rows) if len(rows) else "-", ivec(labels)))
+        r = self.drv.ask("new %s %s" % (";".join(fvec(x) for x in rows) if len(rows) else "-", fvec([float(l) for l in labels])))
         if r != "id %d" % (len(self.objs) - 1):
             self.corr("new", "id %d" % (len(self.objs) - 1), r)
 
@@ -769,22 +791,24 @@ class Hist:
         ids = list(range(n0, n0 + len(parts)))
         union = sorted(sum((pairs(after[k]) for k in ids), []))
         if union != pairs(bt):
-            self.viol("multiset-preserved", {"op": name}, {"parent": str(pairs(bt))[:300], "parts": str(union)[:300]})
+            self.viol("multiset-preserved", {"op": name, "labels": label_kind(bt["labels"])},
+                      {"parent": str(pairs(bt))[:300], "parts": str(union)[:300]})
         self.derived_common(name, t, before, ids, after, rows_idx_of(bt, [after[k] for k in ids]))
 
     def op_split_labels(self, op, before):
         t = op["t"]
 
-        order = [int(x) for x in self.objs[t].get_labels()]  # the iteration order of `list(set(labels))`
+        order = [float(x) for x in self.objs[t].get_labels()]  # the iteration order of `list(set(labels))`
 
         def line_of(parts):
-            got = [sorted(set(int(x) for x in p.get_data()[1])) for p in parts]
-            if parts and got != [[l] for l in order]:
-                self.viol("multiset-preserved", {"op": "split_labels-mixed-part"}, {"labels_of_parts": got, "order": order})
-            return "sl %d %s" % (t, ivec(order))
+            got = [len(set(float(x) for x in p.get_data()[1])) for p in parts]
+            if parts and (len(got) != len(order) or any(g != 1 for g in got)):
+                self.viol("multiset-preserved", {"op": "split_labels-mixed-part", "labels": label_kind(before[t]["labels"])},
+                          {"distinct_labels_per_part": got, "order": order})
+            return "sl %d %s" % (t, fvec(order))
 
         def idx_of(bt, parts):
-            return [[i for i, l in enumerate(bt["labels"]) if p["labels"] and l == p["labels"][0]] for p in parts]
+            return [[i for i, l in enumerate(bt["labels"]) if l == j] for j in order[:len(parts)]]
         self.split_generic("split_labels", op, before, lambda: self.objs[t].split_labels(), line_of, idx_of)
 
     def op_split_without_labels(self, op, before):
@@ -883,9 +907,9 @@ class Hist:
             return
         at = after[t]
         if sorted(map(tuple, at["rows"])) != sorted(map(tuple, bt["rows"])) or attrs_of(at) != attrs_of(bt):
-            self.viol("remove-labels-rows", {}, {"before": str(bt["rows"])[:200], "after": str(at["rows"])[:200]})
+            self.viol("remove-labels-rows", {"labels": label_kind(bt["labels"])}, {"before": str(bt["rows"])[:200], "after": str(at["rows"])[:200]})
         if self.base[t] is not None and len(bt["rows"]):
-            self.base[t] = self.base[t][lab_idx + unl_idx]
+            self.base[t] = self.base[t][lab_idx + unl_idx] if len(at["rows"]) == len(bt["rows"]) else None
 
     def concat_parts(self, ids, before):
         """operands that take part in the concatenation proper: an empty operand is skipped (the implementation returns
@@ -1079,8 +1103,14 @@ def gen_set(r, dim, n, extreme=None):
         labs = [-1] * n
     elif style < 0.55:
         labs = [r.choice([0, 3])] * n
-    else:
+    elif style < 0.80:
         labs = [r.choice([-1, 0, 1, 2]) for _ in range(n)]
+    elif style < 0.92:
+        # labels that are not whole numbers: regression targets / user float labels (>= 0, and the marker -1)
+        labs = [r.choice([-1, 0, 0.5, 1.25, 2.75, 2, 0.5]) for _ in range(n)]
+    else:
+        # labels strictly between the marker -1 and 0: the weighted one-vs-others labels, negative targets
+        labs = [r.choice([-1, -0.5, -0.75, -0.25, 1, 0.5, 0]) for _ in range(n)]
     return rows, labs
 
 
@@ -1239,7 +1269,8 @@ def run_history(ctx, drv, thorough, case=None):
             d = dim if r.random() < 0.9 else r.choice([1, 2, 3, 4])
             n = gen_size(r, thorough)
             rows, labs = gen_set(r, d, n, extreme)
-            h.new_set(rows, labs, "reg" if r.random() < 0.15 else "ds", "ndarray" if r.random() < 0.5 else "tuple")
+            h.new_set(rows, labs, "reg" if r.random() < 0.15 else "ds", "ndarray" if r.random() < 0.5 else "tuple",
+                      r.choice(["int64", "int64", "float64", "float64", "int32", "float32"]))
             ctx.count("size_%s" % ("0" if n == 0 else "1" if n == 1 else "2-6" if n <= 6 else "7+"))
             ctx.count("dim_%d" % d)
         nops = r.randint(1, 25)
@@ -1249,7 +1280,8 @@ def run_history(ctx, drv, thorough, case=None):
             h.run(gen_op(r, h))
     else:
         for s in case["init"]:
-            h.new_set([[float(Fraction(x)) for x in row] for row in s["rows"]], s["labels"], s.get("cls", "ds"), s.get("route", "tuple"))
+            h.new_set([[float(Fraction(x)) for x in row] for row in s["rows"]], [float(Fraction(str(l))) for l in s["labels"]],
+                      s.get("cls", "ds"), s.get("route", "tuple"), s.get("ldtype", "int64"))
         for op in case["ops"]:
             if not h.ok:
                 break
@@ -1261,7 +1293,8 @@ def run_history(ctx, drv, thorough, case=None):
 def run(ctx):
     thorough = ctx.tier == "thorough"
     ctx.rule = ("random histories of <= 25 DataSet operations on a pool of live objects (1-3 initial sets of size 0, 1, 2-40, dim 1-4, "
-                "dyadic values on a coarse grid so that extremes are tied, constant columns, with/without unlabelled samples; every "
+                "dyadic values on a coarse grid so that extremes are tied, constant columns, with/without unlabelled samples, labels "
+                "as int64 / int32 / float64 / float32 arrays holding whole numbers, non-integers >= 0 or values between -1 and 0; every "
                 "set returned by an operation joins the pool); operations: scale_range / scale_factor / shift_value (with and "
                 "without override, scalar and per-dimension arguments, a few invalid ones), revert_scaling, shuffle, "
                 "move_boundaries_to_front, copy() and DataSet(ds.get_data()) (second holders of the same arrays), "
@@ -1297,7 +1330,7 @@ def run(ctx):
     ]
     drv = ctx.driver("drv_c18")
     n = 3000 if not thorough else 30000
-    n_min = 1500 if not thorough else 10000   # enforced even on a loaded machine
+    n_min = 1200 if not thorough else 6000   # enforced even on a loaded machine
     budget = 70 if not thorough else 500
     for k in range(n):
         if k >= n_min and ctx.time_left(budget) < 0:
